@@ -2,6 +2,7 @@ package h
 
 import (
 	"bytes"
+	"encoding/json"
 	"errors"
 	"fmt"
 	"os"
@@ -73,6 +74,7 @@ type Runner struct {
 	States   []State // States[j] = model after j acknowledged mutations
 	MutOp    []int   // MutOp[j] = index of the operation that was the j-th mutation (MutOp[0] = -1)
 	V        *Violation
+	KnownHits []KnownHit
 	Aborted  string
 	Infra    string
 	Cnt      map[string]int64
@@ -184,7 +186,52 @@ func (r *Runner) fail(oracle, sig, format string, a ...interface{}) {
 	} else {
 		sig = oracle + ":" + sig
 	}
+	// a violation that is a recorded known finding (matched by oracle and signature; the list comes from the driver)
+	// is noted and the run goes on, so that a known finding does not shadow what else the run would have explored
+	for _, k := range knownSigs() {
+		if k.Property == r.C.Prop && k.Oracle == oracle && k.re != nil && k.re.MatchString(sig) {
+			r.KnownHits = append(r.KnownHits, KnownHit{ID: k.ID, Sig: sig, Detail: detail})
+			return
+		}
+	}
 	r.V = &Violation{Prop: r.C.Prop, Oracle: oracle, Sig: sig, Detail: detail, Step: r.step}
+}
+
+// KnownHit is one occurrence of a recorded known finding inside a run.
+type KnownHit struct {
+	ID     string `json:"id"`
+	Sig    string `json:"sig"`
+	Detail string `json:"detail"`
+}
+
+type knownSig struct {
+	ID       string `json:"id"`
+	Property string `json:"property"`
+	Oracle   string `json:"oracle"`
+	SigRe    string `json:"sig_re"`
+	re       *regexp.Regexp
+}
+
+var knownCache []knownSig
+var knownLoaded bool
+
+func knownSigs() []knownSig {
+	if knownLoaded {
+		return knownCache
+	}
+	knownLoaded = true
+	if v := os.Getenv("VSIM_KNOWN"); v != "" {
+		var ks []knownSig
+		if json.Unmarshal([]byte(v), &ks) == nil {
+			for i := range ks {
+				if ks[i].SigRe != "" {
+					ks[i].re, _ = regexp.Compile(ks[i].SigRe)
+				}
+			}
+			knownCache = ks
+		}
+	}
+	return knownCache
 }
 
 // protect runs fn, converting a panic into a message with the top engine frame.
@@ -489,6 +536,15 @@ func (r *Runner) result(idx int, seed uint64, start time.Time) *Result {
 	res := &Result{Idx: idx, Seed: seed, Counters: r.Cnt, Traces: r.Traces, States: r.StateHs,
 		SimNs: vclock.NowNs() - r.clock0, Events: vrt.EventBase, WallUs: time.Since(start).Microseconds()}
 	res.CaseHash = r.C.Hash()
+	if len(r.KnownHits) > 0 {
+		seen := map[string]bool{}
+		for _, k := range r.KnownHits {
+			if !seen[k.ID] {
+				seen[k.ID] = true
+				res.Known = append(res.Known, k)
+			}
+		}
+	}
 	if r.FS != nil {
 		h := uint64(14695981039346656037)
 		for i := range r.FS.Journal {
